@@ -424,3 +424,25 @@ Proof.
   exact (tucker_regressor_predict_factors Op (fst (r_blocks st)) (snd (r_blocks st)) X n sx WX HsX Hsx Hfs Hn).
 Qed.
 End FitPredict.
+
+(* ------------------------------------------------------------------ the fit loop around the CONCRETE ridge blocks *)
+Section ConcreteCp.
+Context {F : Type} (Op : fops F).
+Notation cp_concrete_sweep := (cp_concrete_sweep Op).
+
+Lemma cp_sweep_length solve reg X y so R : forall fs, length (cp_sweep Op solve reg X y so R fs) = length fs.
+Proof.
+  intros fs. unfold cp_sweep. generalize (seq 0 (length fs)). intros l. revert fs.
+  induction l as [|i l IH]; intros fs; cbn [fold_left]; [reflexivity|]. rewrite IH. apply set_nth_length.
+Qed.
+
+Theorem cp_concrete_fit_predict solve reg Xtr ytr so R nrm small n_iter w0 st (X : tensor F) n sx so' :
+  reg_fit (cp_concrete_sweep solve reg Xtr ytr so R) (cp_rebuild Op) nrm small n_iter w0 = Ok st ->
+  wf X -> shape X = n :: sx -> sx <> [] -> factor_rows (snd (r_blocks st)) = sx ++ so' -> 0 < n -> 0 < prod so' ->
+  exists P, predict_cp Op (r_weight_tensor st) X = Ok P /\ shape P = n :: so' /\
+    forall i o, i < n -> inb so' o ->
+      tget Op P (i :: o) = fsum_idx Op sx (fun J => fmul Op (tget Op X (i :: J))
+        (fsumn Op (nth 0 (shape (fst (r_blocks st))) 0)
+               (fun r => fmul Op (tget Op (fst (r_blocks st)) [r]) (cp_coeff Op (snd (r_blocks st)) (J ++ o) r)))).
+Proof. apply cp_fit_predict. Qed.
+End ConcreteCp.
